@@ -892,23 +892,17 @@ def rule_descriptor_siblings(db: ProgramDB) -> List[Instance]:
             n += 1
             missing = kinds - ks
             if missing:
-                # the other kinds in the same if / elif chain?
-                st = node
-                while st is not None and not isinstance(st, ast.If):
-                    st = db.parent(st)
+                # the other kinds tested on the same subject elsewhere in the function (the arms of an if / elif chain, or of a run of
+                # `if …: return` statements - the same thing written without else)
                 chain_names: Set[str] = set()
-                top = st
-                while top is not None and isinstance(db.parent(top), ast.If) and db.parent(top).orelse == [top]:
-                    top = db.parent(top)
-                cur = top
-                while isinstance(cur, ast.If):
-                    for t in ast.walk(cur.test):
-                        chain_names |= named(t)
-                    cur = cur.orelse[0] if len(cur.orelse) == 1 and isinstance(cur.orelse[0], ast.If) else None
+                subject = unparse(node.args[0])
+                for other in own_nodes(fn.node):
+                    if isinstance(other, ast.Call) and dotted(other.func) == "isinstance" and len(other.args) == 2 and unparse(other.args[0]) == subject:
+                        chain_names |= named(other)
                 missing -= chain_names
             out.append(inst("DESCRIPTOR-SIBLINGS", VIOLATION if missing else HOLDS, fn, f"{fn.short}[{unparse(node)[:50]}]",
                             "every kind of descriptor is covered (same test, or the other arms of the chain)" if not missing else
-                            f"`{unparse(node)}` singles out {sorted(ks)} and nothing in its if / elif chain covers {sorted(missing)}: a query built with "
+                            f"`{unparse(node)}` singles out {sorted(ks)} and no other test of the function on the same subject covers {sorted(missing)}: a query built with "
                             f"{' / '.join(sorted(missing))} takes another path here than the same query built with {' / '.join(sorted(ks))} "
                             f"(where its conditions start, which node a rule block enters, which variable is inferred)", line=node.lineno))
     if n < 3:
